@@ -156,8 +156,10 @@ func (s *Sys) ShapeOfVersion(v int64) string {
 	return sh
 }
 
-// Observe compares everything readable with the model after a transition. Cheap part on every transition.
-func Observe(s *Sys, m *Model, probe *Probe) string {
+// Observe compares everything readable with the model after a transition. On every transition: all read APIs
+// of the working tree, and size + full ordered contents + root hash of every retained version and of the open
+// snapshot. With deep (every NEW state): all read APIs on the retained versions and the snapshot as well.
+func Observe(s *Sys, m *Model, probe *Probe, deep bool) string {
 	if got := s.T.Version(); got != m.Ver {
 		return fmt.Sprintf("Version()=%d, model %d", got, m.Ver)
 	}
@@ -175,7 +177,12 @@ func Observe(s *Sys, m *Model, probe *Probe) string {
 		if err != nil {
 			return fmt.Sprintf("GetImmutable(%d) of a retained version failed: %v", v, err)
 		}
-		d := CheckReads(m, m.Vers[v], imm, probe)
+		var d string
+		if deep {
+			d = CheckReads(m, m.Vers[v], imm, probe)
+		} else {
+			d = CheckContents(m, m.Vers[v], imm)
+		}
 		h := imm.Hash()
 		imm.Close()
 		if d != "" {
@@ -198,7 +205,13 @@ func Observe(s *Sys, m *Model, probe *Probe) string {
 		return fmt.Sprintf("VersionExists(%d)=true for a pruned version", m.First-1)
 	}
 	if m.ImmVer != 0 {
-		if d := CheckReads(m, m.Imm, s.Imm, probe); d != "" {
+		var d string
+		if deep {
+			d = CheckReads(m, m.Imm, s.Imm, probe)
+		} else {
+			d = CheckContents(m, m.Imm, s.Imm)
+		}
+		if d != "" {
 			return fmt.Sprintf("open snapshot of version %d: %s", m.ImmVer, d)
 		}
 	}
@@ -294,7 +307,7 @@ func Digest(s *Sys, m *Model, workShape string) [16]byte {
 }
 
 // Hook lets a property add its own per-state checks (C24/C25) on every NEW state. Returns discrepancy or "".
-type Hook func(s *Sys, m *Model, work *bptree.VerifNode, op Op) string
+type Hook func(sc *Scenario, s *Sys, m *Model, work *bptree.VerifNode, path []Op) string
 
 // Explore runs the BFS of one scenario. Every transition is executed on the real tree (fresh instance + replay).
 func Explore(sink Sink, sc *Scenario, hook Hook) Stats {
@@ -322,7 +335,7 @@ func Explore(sink Sink, sc *Scenario, hook Hook) Stats {
 	}
 
 	// deepCheck runs on every NEW state.
-	deepCheck := func(s *Sys, m *Model, work *bptree.VerifNode, op Op) string {
+	deepCheck := func(s *Sys, m *Model, work *bptree.VerifNode, path []Op) string {
 		deep.Add(1)
 		prob, uf := CheckStructure(work, pb)
 		if prob != "" {
@@ -345,8 +358,11 @@ func Explore(sink Sink, sc *Scenario, hook Hook) Stats {
 				}
 			}
 		}
+		if d := Observe(s, m, sc.Probe, true); d != "" {
+			return d
+		}
 		if hook != nil {
-			return hook(s, m, work, op)
+			return hook(sc, s, m, work, path)
 		}
 		return ""
 	}
@@ -355,7 +371,7 @@ func Explore(sink Sink, sc *Scenario, hook Hook) Stats {
 	s0, m0, d0 := sc.Start()
 	if d0 != "" {
 		report(nil, "start state: "+d0)
-	} else if d := Observe(s0, m0, sc.Probe); d != "" {
+	} else if d := Observe(s0, m0, sc.Probe, true); d != "" {
 		report(nil, "start state: "+d)
 	} else {
 		w0, err := bptree.VerifDumpWorking(s0.T)
@@ -363,7 +379,7 @@ func Explore(sink Sink, sc *Scenario, hook Hook) Stats {
 			report(nil, "start state dump: "+err.Error())
 		} else {
 			visited.add(Digest(s0, m0, ShapeString(w0, true)))
-			if d := deepCheck(s0, m0, w0, Op{}); d != "" {
+			if d := deepCheck(s0, m0, w0, nil); d != "" {
 				report(nil, "start state: "+d)
 			}
 		}
@@ -431,7 +447,7 @@ func Explore(sink Sink, sc *Scenario, hook Hook) Stats {
 				default:
 					sink.Outcome("op_ok")
 				}
-				if d := Observe(s, m, sc.Probe); d != "" {
+				if d := Observe(s, m, sc.Probe, false); d != "" {
 					report(full, d)
 					continue
 				}
@@ -455,7 +471,7 @@ func Explore(sink Sink, sc *Scenario, hook Hook) Stats {
 				}
 				nmu[i].Unlock()
 				if !seen {
-					if d := deepCheck(s, m, work, op); d != "" {
+					if d := deepCheck(s, m, work, full); d != "" {
 						report(full, d)
 					}
 				}
